@@ -242,7 +242,7 @@ def run(tier, seed, part=None):
     if tier == "quick":
         plans = [({"max_send": 4}, 8, 1), ({"max_send": 3, "pausing": True, "adv": False}, 7, 1),
                  ({"max_send": 2, "pausing": True, "pol": ["I", "C"]}, 6, 1),
-                 ({"max_send": 4, "cat_idx": [0, 1, 0, 0], "pol": ["I"], "adv": False}, 7, 0)]
+                 ({"max_send": 4, "cat_idx": [0, 1, 0, 0], "pol": ["I", "N", "N", "I"], "adv": False}, 7, 0)]
         cap = 40
     else:
         plans = [({"max_send": 6}, 10, 2), ({"max_send": 4, "pausing": True}, 9, 2), ({"max_send": 3, "pausing": True, "pol": ["I", "C", "C"]}, 9, 2),
